@@ -116,25 +116,54 @@ def run(ctx):
 
     # R3 on the enumerated paths of the response arm: what is handed to a waiting operation is the decoded message itself - the
     # protocolOp it carried and the control list it carried, the latter as decoded (not a list that an earlier statement of the
-    # arm has emptied, replaced or filtered)
-    MSG = ('variant', ('variant', driver.ARM, 'Some', 0), 'Ok', 0)
-    M_TAG, M_CTRLS = ('field', ('field', MSG, '1'), '0'), ('field', ('field', MSG, '1'), '1')
-    n_pl = 0
+    # arm has emptied, replaced or filtered).  For an entry / referral / intermediate item and for a single-result reply the
+    # control list is the vector sent next to the item (the stream resp. op_call hand that vector on: C10 Q2, C03 T2).  The
+    # controls of a SearchResultDone have two carriers - `ctrls` of the LdapResult inside SearchItem::Done and the vector next to
+    # it - which SearchStream::next_inner combines into the result finish() returns: there the obligation is on the composition
+    # (rules/donectrls.py): what the caller finds in LdapResult::ctrls is exactly the decoded list, once.
+    import donectrls
+    MSG, M_TAG, M_CTRLS = donectrls.MSG, donectrls.M_TAG, donectrls.M_CTRLS
+    done_pairs = {}
+    for R_, S_, node in donectrls.driver_pairs(C):
+        done_pairs.setdefault(node.get('id'), []).append((R_, S_))
+    transfers = None
+    n_pl = n_done = 0
     for o in driver.arm_paths(C, 'response')[0]:
         for T, want in ((anchors.T_ITEM_SENDER, 'search'), (anchors.T_RESULT_SENDER, 'result')):
             for i, args, node in driver.sends(o, T):
                 n_pl += 1
                 pl = args[1]
                 parts = pl[1] if pl[0] == 'tuple' and len(pl[1]) == 2 else None
-                ok_c = parts is not None and parts[1] == M_CTRLS
-                ctx.add('R3.controls-are-the-decoded-ones', want, loc(node), ok_c,
-                        'the control list handed to the waiting %s is %s, not the control list decoded from this message' % (
-                            'search' if want == 'search' else 'operation', absx.fmt(parts[1])[:80] if parts else absx.fmt(pl)[:80]))
+                is_done = want == 'search' and parts is not None and parts[0][0] == 'ctor' and parts[0][1] == 'SearchItem::Done'
+                if is_done:
+                    n_done += 1
+                    if transfers is None:
+                        from props import C10
+                        N = hirq.Body(f, C10.stream_body(f, 'next_inner'))
+                        ctx.analysed['bodies'].add(N.path)
+                        # (a path of next_inner that ends the stream without storing a final result is C10 Q2's finding, not a statement
+                        # about controls: the composition is decided on the paths that do store one - at least one, or fail closed)
+                        transfers = [t for t in donectrls.stream_transfers(f, N, [x for x in C10.run_from(f, N, 'Active') if x.kind in ('val', 'ret')], C10.stored_final_result) if t[1]]
+                    bad = [(R_, S_, T_) for R_, S_ in done_pairs.get(node.get('id'), []) for T_, okst, _o in transfers if donectrls.compose(T_, R_, S_) != donectrls.EXACT]
+                    ok_c = bool(done_pairs.get(node.get('id'))) and bool(transfers) and not bad
+                    why = 'the final result of the search cannot be followed from this send to SearchStream::next_inner'
+                    if bad:
+                        R_, S_, T_ = bad[0]
+                        why = ('the caller of finish() finds LdapResult::ctrls = %s, not exactly the control list decoded from this message: the driver sends '
+                               'the SearchResultDone with result.ctrls = %s and, next to it, %s; SearchStream::next_inner stores %s' % (
+                                   donectrls.show(donectrls.compose(T_, R_, S_)), donectrls.show(R_), donectrls.show(S_), donectrls.show(T_)))
+                    ctx.add('R3.controls-are-the-decoded-ones', want, loc(node), ok_c, why)
+                else:
+                    ok_c = parts is not None and donectrls.norm(parts[1], {M_CTRLS: 'D'}) == donectrls.EXACT
+                    ctx.add('R3.controls-are-the-decoded-ones', want, loc(node), ok_c,
+                            'the control list handed to the waiting %s is %s, not the control list decoded from this message' % (
+                                'search' if want == 'search' else 'operation', absx.fmt(parts[1])[:80] if parts else absx.fmt(pl)[:80]))
                 if parts is not None:
                     op = parts[0]
                     ok_t = (op == M_TAG) if want == 'result' else (sem.has(op, lambda x: x == M_TAG) and not sem.has(op, lambda x: x == M_CTRLS or x[0] in ('default', 'unk')))
                     ctx.add('R3.protocol-op-is-the-decoded-one', want, loc(node), ok_t,
                             'the response handed to the waiting %s is %s, not the protocolOp decoded from this message' % (want, absx.fmt(op)[:80]))
+    ctx.floor('R3', 'sends of a SearchResultDone on the enumerated paths of the response arm (composition with the stream decided)', n_done, 1)
     ctx.floor('R3', 'reply sends on the enumerated paths of the response arm', n_pl, 4)
 
     # R4 classification table, decided by evaluating the response arm once per protocolOp number (finite partition: every number
